@@ -56,6 +56,11 @@ func lookupFacts(s *src, f *facts) {
 		return s.str(i.Cond) == "!"+cur+".IsValid()" && len(all[*ast.ReturnStmt](i.Body, nil)) > 0
 	}))
 	f.b("lkRejectsInvalidField", invalid != nil && before(fbn, invalid), s.pos(invalid))
+	unexp := first(all(rng, func(i *ast.IfStmt) bool {
+		c := s.str(i.Cond)
+		return (c == "!"+cur+".CanInterface()" || strings.Contains(c, "IsExported()") || strings.Contains(c, "PkgPath")) && len(all[*ast.ReturnStmt](i.Body, nil)) > 0 && before(fbn, i)
+	}))
+	f.b("lkRejectsUnexportedField", unexp != nil, s.pos(unexp))
 	mbn := first(allShallow(body, func(c *ast.CallExpr) bool {
 		return s.str(c.Fun) == cur+".MethodByName" && len(c.Args) == 1 && s.str(c.Args[0]) == parts+"[len("+parts+")-1]"
 	}))
